@@ -148,7 +148,7 @@ def subscriptions(versions):
         flavour = w.pick(["sync", "async"], "flavour")
         fs = P.make_fs(w, "json")
         with fs.installed():
-            inp = prefix(w, "in", 1, 2)
+            inp = prefix(w, "in", 2, 1)
             g = P.pgateway(w, version, "json", flavour, "mqtt", in_prefix=inp,
                            pubsub_raises=C.sym_flag(w, "pubsub_raises"))
             ids = C.gen_network(w, g, ["awake", "bare"])
